@@ -467,8 +467,25 @@ func makeOptionalPtrDecoder(typ reflect.Type) (decoder, error) {
 	if err != nil {
 		return nil, err
 	}
+	// The encoder writes a nil pointer as exactly one kind of empty value
+	// (see makePtrWriter); only that empty value decodes to nil. Types
+	// with a custom encoder choose their own and keep accepting both.
+	nilKind, strict := String, !typ.Implements(encoderInterface) && !etype.Implements(encoderInterface)
+	switch ekind := etype.Kind(); {
+	case ekind == reflect.Array && isByte(etype.Elem()):
+		nilKind = String
+	case ekind == reflect.Struct || ekind == reflect.Array || ekind == reflect.Interface:
+		nilKind = List
+	case ekind == reflect.Slice && !isByte(etype.Elem()):
+		nilKind = List
+	case ekind == reflect.Ptr:
+		strict = false
+	}
 	dec := func(s *Stream, val reflect.Value) (err error) {
 		kind, size, err := s.Kind()
+		if strict && err == nil && size == 0 && kind != Byte && kind != nilKind {
+			return &decodeError{msg: fmt.Sprintf("wrong kind of empty value (got %v, want %v)", kind, nilKind), typ: typ}
+		}
 		if err != nil || size == 0 && kind != Byte {
 			// rearm s.Kind. This is important because the input
 			// position must advance to the next value even though
